@@ -19,9 +19,13 @@ for d in sorted(os.listdir(V + '/seeded')):
         r = subprocess.run([V + '/check', pid, 'quick'], capture_output=True, text=True, env=dict(os.environ, VERIF_OUT='/var/tmp/seedcheck_out'))
     finally:
         subprocess.run(['git', '-C', '/repo', 'checkout', '--', '.'])
+    vio = [l for l in r.stdout.splitlines() if l.startswith('VIOLATION')]
     obl = [l.strip() for l in r.stdout.splitlines() if 'failed obligation' in l or l.startswith('UNDECIDED')]
     vio = [l for l in r.stdout.splitlines() if l.startswith('VIOLATION')]
-    res[d] = {'property': pid, 'exit': r.returncode, 'verdict': {0: 'missed', 1: 'detected', 2: 'undecided'}.get(r.returncode, '?'),
+    verdict = {0: 'missed', 1: 'detected', 2: 'undecided'}.get(r.returncode, '?')
+    if r.returncode == 1 and not vio:
+        verdict = 'machinery-error'
+    res[d] = {'property': pid, 'exit': r.returncode, 'verdict': verdict,
               'obligations': sorted(set(obl))[:6], 'replayed_on_real_code': any('no-failing-input-found' not in l for l in vio) if vio else False}
     print(d, res[d]['verdict'], res[d]['obligations'][:2])
 json.dump(res, open(V + '/seeded/RESULTS.json', 'w'), indent=1, sort_keys=True)
